@@ -9,8 +9,9 @@ use crate::connrun::*;
 use crate::engine::*;
 use crate::gen::*;
 use crate::refparse::*;
+use crate::respread::{rr_parse, RrEnd};
 use crate::src::{esc, fnv64, filler, Src};
-use crate::stream::ReadEv;
+use crate::stream::{ReadEv, WriteEv};
 use crate::{buf_size, DEFAULT_LIMIT};
 
 pub const LIMITS: [Option<usize>; 17] = [
@@ -116,6 +117,16 @@ pub fn run_focus_after(
     match drive_prefix(stream, reqs, end, limit, buf_size(), check_100, sched, 4 * stream.len() + 64, prelude) {
         Ok(info) => Ok(ConnCaseResult { info, offtopic: false }),
         Err((sig, msg)) => {
+            // an error raised, out of the blue, by the read that completes the header block of a
+            // request that asks for (and is entitled to) an interim response takes that response
+            // away: on topic for the interim-response property
+            let refuses_qualifying = focus.interim && sig == "spurious-error" && {
+                let n: usize = msg.split(" after ").nth(1).and_then(|t| t.split(' ').next()).and_then(|t| t.parse().ok()).unwrap_or(usize::MAX);
+                n != usize::MAX && reqs.iter().any(|r| r.wants_continue && r.headers_done_at <= n && n - r.headers_done_at < buf_size())
+            };
+            if refuses_qualifying {
+                return Err(Fail::new(&format!("{}:interim-refused", prop), format!("a request entitled to 100 Continue was rejected instead: {}", msg)));
+            }
             if on_topic(focus, &sig, &msg, end) {
                 Err(Fail::new(&format!("{}:{}", prop, sig), msg))
             } else {
@@ -1138,7 +1149,7 @@ pub fn c04_conn_jobs(tier: Tier) -> Vec<Job> {
 
 fn c13_expect(input: &Input, obs: &mut Obs) -> Result<(), Fail> {
     let mut s = Src::new(input.bytes());
-    let limit = if s.chance(200) { [Some(5usize), Some(8), Some(1024), Some(2)][s.below(4)] } else { None };
+    let limit = if s.chance(200) { [Some(5usize), Some(8), Some(1024), Some(2), Some(u32::MAX as usize), Some(1usize << 32), Some((1usize << 32) + 3), Some(usize::MAX)][s.weighted(&[4, 4, 4, 4, 1, 2, 2, 1])] } else { None };
     let mut cfg = GenCfg::new(buf_size(), eff(limit));
     cfg.corrupt = 3;
     cfg.expect = 190;
@@ -1228,14 +1239,121 @@ fn c13_sweep_enum(tier: Tier, shard: u64, nshards: u64, f: &mut dyn FnMut(&[u64]
     }
 }
 
+/// The interim response after other output was discarded: an application response is partly
+/// written, then dropped (failed write or `clear_write_buffer`); the Expect request that arrives
+/// afterwards still gets one intact `100 Continue` of its version, and is yielded once its body
+/// has arrived.
+fn c13_discard(input: &Input, obs: &mut Obs) -> Result<(), Fail> {
+    use micro_http::{Body, Response, StatusCode, Version};
+    let mut s = Src::new(input.bytes());
+    let rounds = s.range(1, 3);
+    let mut run = ConnRun::new(Vec::new(), None, false);
+    run.keep = true;
+    let fail = |sig: &str, m: String| Fail::new(&format!("C13:{}", sig), m);
+    let mut total_reqs = 0usize;
+    for round in 0..rounds {
+        // an application response, partly written, then discarded
+        let how = s.below(6);
+        if how > 0 {
+            let size = [1usize, 40, 300, 5000, 70_000][s.below(5)];
+            let mut r = Response::new(if s.chance(128) { Version::Http11 } else { Version::Http10 }, StatusCode::OK);
+            r.set_body(Body::new(filler(0, s.u8(), size)));
+            run.conn.enqueue_response(r);
+            let nwrites = s.range(1, 3);
+            for _ in 0..nwrites {
+                run.ss.borrow_mut().next_write = Some(WriteEv::Accept(s.u16() / 2));
+                let _ = run.conn.try_write();
+            }
+            run.ss.borrow_mut().next_write = None;
+            if run.conn.pending_write() {
+                obs.label("response_partly_written_then_discarded");
+            }
+            match how {
+                1 => run.conn.clear_write_buffer(),
+                2 | 3 | 4 => {
+                    run.ss.borrow_mut().next_write = Some([WriteEv::Epipe, WriteEv::Eagain, WriteEv::Zero][how - 2]);
+                    let _ = run.conn.try_write();
+                    run.ss.borrow_mut().next_write = None;
+                }
+                _ => {
+                    // not discarded: written out completely
+                    run.drain_out().map_err(|m| fail("output", m))?;
+                }
+            }
+            if run.conn.pending_write() {
+                return Err(fail("pending-after-discard", "output is still reported pending after it was discarded".into()));
+            }
+        }
+        // the Expect request: header block first, body later
+        let v = s.below(2);
+        let n = s.range(1, 2000);
+        let method = ["PUT", "PATCH"][s.below(2)];
+        let head = format!("{} /r{} HTTP/1.{}\r\nExpect: 100-continue\r\nContent-Length: {}\r\n\r\n", method, round, v, n).into_bytes();
+        let before = run.ss.borrow().out.len();
+        run.feed(&head);
+        let mut guard = 0;
+        while run.remaining() > 0 && guard < 4000 {
+            guard += 1;
+            let want = [1usize, 7, 30, 1024][s.below(4)];
+            let st = run.read(ReadEv::Data { want, fds: vec![] }).map_err(|m| fail("misuse", m))?.clone();
+            match st.res {
+                RRes::Ok => {}
+                other => return Err(fail("read-result", format!("reading the header block of a well-formed Expect request gave {:?}", other))),
+            }
+        }
+        let mut out = match std::panic::catch_unwind(std::panic::AssertUnwindSafe(|| run.drain_out())) {
+            Ok(r) => r.map_err(|m| fail("interim-garbage", m))?,
+            Err(p) => return Err(fail("panic", format!("try_write panicked: {}", crate::connrun::panic_msg(p)))),
+        };
+        let _ = &mut out;
+        let got = run.ss.borrow().out[before..].to_vec();
+        let (rs, end) = rr_parse(&got);
+        if end != RrEnd::Clean || rs.len() != 1 || rs[0].code != 100 || rs[0].version as usize != v || !rs[0].body.is_empty() {
+            return Err(fail("interim-garbage", format!("after the header block of an Expect request (HTTP/1.{}) the client received \"{}\" instead of one 100 Continue", v, esc(&got[..got.len().min(160)]))));
+        }
+        if !run.kept.is_empty() && run.kept.len() > total_reqs {
+            return Err(fail("yielded-without-body", "the request was yielded before its body arrived".into()));
+        }
+        // the body
+        let body = filler(1, s.u8(), n);
+        run.feed(&body);
+        let mut guard = 0;
+        while run.remaining() > 0 && guard < 8000 {
+            guard += 1;
+            let st = run.read(ReadEv::Data { want: [5usize, 100, 1024][s.below(3)], fds: vec![] }).map_err(|m| fail("misuse", m))?.clone();
+            if st.res != RRes::Ok {
+                return Err(fail("read-result", format!("reading the body gave {:?}", st.res)));
+            }
+        }
+        total_reqs += 1;
+        if run.kept.len() != total_reqs {
+            return Err(fail("not-yielded", format!("{} requests yielded after {} complete Expect requests", run.kept.len(), total_reqs)));
+        }
+        let d = delivered_of(&run.kept.last().unwrap().1);
+        if d.body.as_deref() != Some(&body[..]) {
+            return Err(fail("not-yielded", "the yielded request does not carry the body that was sent".into()));
+        }
+        let extra = run.ss.borrow().out.len();
+        if run.conn.pending_write() || extra != before + got.len() {
+            return Err(fail("interim-count", "further output appeared while the body was received".into()));
+        }
+    }
+    obs.nontrivial = obs.labels.contains(&"response_partly_written_then_discarded");
+    if obs.want_render {
+        obs.render = format!("{} rounds, labels {:?}", rounds, obs.labels);
+    }
+    Ok(())
+}
+
 pub fn c13_conn_subs() -> Vec<(&'static str, SubFn)> {
-    vec![("expect", c13_expect), ("e2_32", c13_e2_32), ("sweep", c13_sweep), ("raw", crate::props::raw::c13_raw)]
+    vec![("expect", c13_expect), ("e2_32", c13_e2_32), ("sweep", c13_sweep), ("raw", crate::props::raw::c13_raw), ("discard", c13_discard)]
 }
 
 pub fn c13_conn_jobs(tier: Tier) -> Vec<Job> {
     let q = tier == Tier::Quick;
     vec![
         Job { sub: "expect", kind: JobKind::Pbt { cases: if q { 200_000 } else { 4_000_000 }, max_len: 900 }, smallbuf: false },
+        Job { sub: "discard", kind: JobKind::Pbt { cases: if q { 30_000 } else { 600_000 }, max_len: 200 }, smallbuf: false },
         Job { sub: "sweep", kind: JobKind::Enum { f: c13_sweep_enum, bound: "Expect template x every pad length 0..1100 x fixed read sizes" }, smallbuf: false },
         Job { sub: "e2_32", kind: JobKind::Enum { f: small_cut2_enum, bound: "B=32 piece family (incl. the Expect piece) x all cut pairs" }, smallbuf: true },
     ]
